@@ -132,5 +132,5 @@ def cases(draw, fast=True):
 
 
 def subs(tier):
-    return [Sub("relax", cases(fast=(tier == "quick")), run_case, quick=160, thorough=1500, needs=("rel", "h5x"), shrink_budget=16,
+    return [Sub("relax", cases(fast=(tier == "quick")), run_case, quick=320, thorough=1500, needs=("rel", "h5x"), shrink_budget=16,
                 max_wall={"quick": 400, "thorough": 3000})]
